@@ -24,6 +24,10 @@ type Call struct {
 	Panic  [][]any         `json:"panic,omitempty"`
 	Stall  [][]any         `json:"stall,omitempty"`
 	Probe  bool            `json:"probe,omitempty"`
+	// Follows: the same mutation as the preceding check call, issued for real;
+	// Predicted is that check's answer (filled in by the driver)
+	Follows   bool   `json:"follows,omitempty"`
+	Predicted string `json:"predicted,omitempty"`
 }
 
 type NestAt struct {
@@ -281,6 +285,14 @@ func RandCalls(r *rand.Rand, c *Case, n int, vetoP float64, maxVeto int) []Call 
 			}
 		}
 		calls = append(calls, call)
+		if call.Check && r.Float64() < 0.6 {
+			// CanAdd/CanRemove must answer what the same mutation returns next
+			f := call
+			f.Check = false
+			f.Follows = true
+			f.Nest = []NestAt{}
+			calls = append(calls, f)
+		}
 	}
 	return calls
 }
